@@ -17,7 +17,6 @@ import (
 
 	"github.com/rs/zerolog"
 
-	"verif/harness/internal/prng"
 	"verif/harness/internal/proto"
 )
 
@@ -218,5 +217,3 @@ func note(side, c string) string {
 	}
 	return c
 }
-
-var _ = prng.New
